@@ -1,2 +1,134 @@
-(* C05 — placeholder while the model is being tied to the code. *)
-From FV Require Import C05.Model.
+(* C05 — Timers fire exactly once, on their due tick, in due order (wheel and heap).
+   Only the property theorems: each is closed by an exact lemma and followed by
+   Print Assumptions.  Model: C05/Model.v (wheel + heap + API side), reference
+   specification: C05/Spec.v (a multiset of pending timers). *)
+From Coq Require Import ZArith List Bool Sorted.
+From FV Require Import C05.Model C05.Spec C05.Geom C05.WheelInv C05.Refine C05.Machine C05.SpecFacts C05.Proofs.
+Import ListNotations.
+Open Scope Z_scope.
+
+(* Placement: wherever the wheel stands (any tick count cur >= 0: every cascade boundary,
+   and every wrap of the 32-bit currTick = cur mod 2^32) and whatever the deadline, addNode
+   puts the node into a bucket from which it will be taken in time: the near bucket of its
+   expiry tick, or an outer bucket whose cascade time C is a multiple of the level's span
+   with cur < C <= expiry, less than 64 spans ahead. *)
+Theorem c05_wheel_placement : forall cur tt n l s,
+  0 <= cur -> tt <= ndl n -> bucket_of cur tt n = (l, s) ->
+  pos_ok (cur + 1) cur (cur + (ndl n - tt)) l s.
+Proof. exact bucket_of_ok. Qed.
+Print Assumptions c05_wheel_placement.
+
+(* The wheel invariant (every node correctly placed for the current position, ids
+   distinct, periodic nodes strictly in the future) holds after EVERY history of API calls
+   and worker steps, from every start position. *)
+Theorem c05_wheel_inv : forall ops cur0 tt0,
+  0 <= cur0 -> core_winv (score (fst (run (init_wheel cur0 tt0) ops))).
+Proof. exact wheel_inv_all. Qed.
+Print Assumptions c05_wheel_inv.
+
+(* One tick preserves the invariant (cascade chain included). *)
+Theorem c05_wheel_tick_inv : forall w r w' r' o, winv w -> wtick w r = (w', r', o) -> winv w'.
+Proof. exact wtick_inv. Qed.
+Print Assumptions c05_wheel_tick_inv.
+
+(* Refinement: for every history and every start position the wheel scheduler answers
+   exactly like the pending-multiset specification (which does not know the position):
+   ids, Cancel, Size, IsScheduled, worker steps are equal, and what each tick step
+   delivers is the specification's delivery list up to the order among equal due times.
+   Hence: delivered exactly once, on the first tick at or after the due time, never
+   earlier, never postponed; periodic timers re-armed one period after the delivering
+   tick; a delivered one-shot timer not counted or reported any more. *)
+Theorem c05_wheel_refines_spec : forall ops cur0 tt0,
+  0 <= cur0 ->
+  Forall2 out_eq (snd (run (init_wheel cur0 tt0) ops)) (snd (srun (sinit true tt0) ops)).
+Proof. exact wheel_refines. Qed.
+Print Assumptions c05_wheel_refines_spec.
+
+Theorem c05_heap_refines_spec : forall ops now,
+  Forall2 out_eq (snd (run (init_heap now) ops)) (snd (srun (sinit false now) ops)).
+Proof. exact heap_refines. Qed.
+Print Assumptions c05_heap_refines_spec.
+
+(* Exact firing tick (closed form): a one-shot timer accepted with delay d >= 0 while the
+   wheel is at any position is, after k further ticks, delivered exactly once if
+   k >= max d 1 and not at all before: it fires during tick number
+   max (cur0 + d) (cur0 + 1), never earlier, never later, never twice. *)
+Theorem c05_wheel_exact : forall w r id d k,
+  winv w -> ~ In id (map nid (wcontent w)) -> mem id r = true -> 0 <= d ->
+  count_occ Z.eq_dec
+    (map fst (snd (wupdate (add_node w (mkNode id (wtt w + d) 0)) r (wtt w + Z.of_N k)))) id =
+  if Z.of_N k <? Z.max d 1 then 0%nat else 1%nat.
+Proof. exact wheel_exact. Qed.
+Print Assumptions c05_wheel_exact.
+
+(* The same for the specification (shared by both implementations through the refinement
+   theorems): after k ticks from time t0 a pending one-shot timer with due time dl has
+   been delivered exactly once iff k >= 1 and t0 + k >= dl. *)
+Theorem c05_spec_exact : forall t0 n k P r,
+  nper n = 0 -> NoDup (map nid P) -> In n P ->
+  count_occ Z.eq_dec (map fst (snd (N.iter k ticks_acc (t0, P, r, [])))) (nid n) =
+  if (k =? 0)%N || (t0 + Z.of_N k <? ndl n) then 0%nat else 1%nat.
+Proof. exact spec_exact. Qed.
+Print Assumptions c05_spec_exact.
+
+(* One tick of the wheel, any reachable state: a scheduled node that is due is delivered;
+   a periodic one is back in the wheel re-armed at (this tick + period) and still
+   scheduled; a one-shot one is no longer in the refer map (Size / IsScheduled drop it). *)
+Theorem c05_wheel_periodic_and_unscheduled : forall w r n w' r' o,
+  winv w -> In n (wcontent w) -> alive r n = true -> ndl n <= wtt w + 1 ->
+  wtick w r = (w', r', o) ->
+  In (deliv_of n) o /\
+  (periodic n = true -> In (rearm (wtt w + 1) n) (wcontent w') /\ alive r' n = true) /\
+  (periodic n = false -> ~ In (nid n) r').
+Proof. exact wheel_tick_due. Qed.
+Print Assumptions c05_wheel_periodic_and_unscheduled.
+
+(* ... and a node that is not due is not delivered and stays. *)
+Theorem c05_wheel_not_early : forall w r n w' r' o,
+  winv w -> In n (wcontent w) -> alive r n = true -> wtt w + 1 < ndl n ->
+  wtick w r = (w', r', o) ->
+  ~ In (nid n) (map fst o) /\ In n (wcontent w') /\ alive r' n = true.
+Proof. exact wheel_tick_not_due. Qed.
+Print Assumptions c05_wheel_not_early.
+
+(* Order: what any tick step (a burst of any size) puts on Chan() is in non-decreasing
+   due-time order, in every history, for both implementations. *)
+Theorem c05_wheel_order : forall ops cur0 tt0 l,
+  0 <= cur0 -> In (ODeliv l) (snd (run (init_wheel cur0 tt0) ops)) -> StronglySorted Z.le (map snd l).
+Proof. exact wheel_order. Qed.
+Print Assumptions c05_wheel_order.
+
+Theorem c05_heap_order : forall ops now l,
+  In (ODeliv l) (snd (run (init_heap now) ops)) -> StronglySorted Z.le (map snd l).
+Proof. exact heap_order. Qed.
+Print Assumptions c05_heap_order.
+
+(* non-vacuity: the design's failing inputs, now computed by the model — position 1000,
+   delay 5 fires during tick 1005; position 16000, delay 500 (slot 0 of level 1) fires
+   during tick 16500; position 2^32-6, delay 10 fires 4 ticks after the wrap; a periodic
+   timer of period 3 fires at 3, 6, 9; hypotheses of c05_wheel_exact are met by the
+   empty wheel at position 2^32-6. *)
+Definition ex_run (cur0 : Z) (ops : list op) : list out := snd (run (init_wheel cur0 0) ops).
+
+Example c05_example_1000_5 :
+  ex_run 1000 [Start 5; HandleAdd; Pass 4; Tick; Pass 1; Tick; Pass 100; Tick; Size]
+  = [OId false 1; OFlag true; ONone; ODeliv []; ONone; ODeliv [(1, 5)]; ONone; ODeliv []; ONum 0].
+Proof. vm_compute. reflexivity. Qed.
+
+Example c05_example_16000_500 :
+  ex_run 16000 [Start 500; HandleAdd; Pass 499; Tick; Pass 1; Tick]
+  = [OId false 1; OFlag true; ONone; ODeliv []; ONone; ODeliv [(1, 500)]].
+Proof. vm_compute. reflexivity. Qed.
+
+Example c05_example_wrap :
+  ex_run (2 ^ 32 - 6) [Start 10; HandleAdd; Pass 9; Tick; Pass 1; Tick; Every 3; HandleAdd; Pass 9; Tick]
+  = [OId false 1; OFlag true; ONone; ODeliv []; ONone; ODeliv [(1, 10)];
+     OId false 2; OFlag true; ONone; ODeliv [(2, 13); (2, 16); (2, 19)]].
+Proof. vm_compute. reflexivity. Qed.
+
+Example c05_example_hyps :
+  winv (mkWheel (2 ^ 32 - 6) 77 []) /\ ~ In 1 (map nid (wcontent (mkWheel (2 ^ 32 - 6) 77 []))) /\ mem 1 [1] = true.
+Proof.
+  split; [|split; [intros []|reflexivity]].
+  unfold winv, per_ok. cbn. split; [discriminate|split; [constructor|split; constructor]].
+Qed.
